@@ -72,7 +72,12 @@ func (w *vWorld) symPods(prefix string, g, P int, placement int, daemonChoice bo
 		if pendingChoice && node >= 0 {
 			pending = verifChoice(js+".pending", 2) == 1
 		}
-		w.addPod(g, node, daemon, cpu, 1<<20, pending)
+		mem := int64(1 << 20)
+		if w.symPodMem {
+			// memory-bound workloads: memory symbolic up to three nodes' worth
+			mem = verifInt(js+".mem", 0, 3*w.memPerNode)
+		}
+		w.addPod(g, node, daemon, cpu, mem, pending)
 	}
 }
 
